@@ -159,7 +159,7 @@ fn test(case: &Case, st: &mut Stats, counting: bool) -> CaseResult {
                     let vp = at(&root, p).map_err(|e| e.to_string())?;
                     let mut cur = Cursor::new(vec![]);
                     {
-                        let mut h = vp.create_file().map_err(|e| format!("create_file('{}'): {}", p, e))?;
+                        let mut h = crate::util::hold(vp.create_file().map_err(|e| format!("create_file('{}'): {}", p, e))?);
                         let root2 = root.clone();
                         let mut check = |m: &[u8]| -> Result<(), String> {
                             let got = read_with(&root2, p, 0)?;
@@ -187,7 +187,7 @@ fn test(case: &Case, st: &mut Stats, counting: bool) -> CaseResult {
                         }
                         Some(mut bytes) => {
                             {
-                                let mut h = vp.append_file().map_err(|e| format!("append_file('{}'): {}", p, e))?;
+                                let mut h = crate::util::hold(vp.append_file().map_err(|e| format!("append_file('{}'): {}", p, e))?);
                                 for c in chunks {
                                     let b = make_bytes(c);
                                     h.write_all(&b).map_err(|e| format!("append write: {}", e))?;
